@@ -21,7 +21,7 @@ Section KD.
       | VRef _ _ | VSplice _ =>
         match dyn_value o fuel (l_root v) a (l_path v) (l_val v) with
         | Ok (v', a') => cfg_loc fuel k' a' v'
-        | Err _ _ => Ok (None, a)
+        | Err _ pe => if err_marked pe then OutOfModel else Ok (None, a)
         | Panic => Panic
         | OutOfModel => OutOfModel
         end
@@ -38,8 +38,10 @@ Section KD.
         let visit (nm : string) (x : value) : res (list string) :=
             let v := {| l_root := l_root c; l_path := cpath sep (l_path c) nm; l_val := x |} in
             match cfg_loc fuel fuel (act_push a) v with
-            | Ok (Some cv, a') => flat_dyn fuel n' a' cv
-            | Ok (None, _) => Ok [l_path v]
+            (* a cyclic error was absorbed while resolving this value: what it evaluates to can
+               depend on the per-call cache of evaluated values, which the model does not have *)
+            | Ok (Some cv, a') => if act_marked a' then OutOfModel else flat_dyn fuel n' a' cv
+            | Ok (None, a') => if act_marked a' then OutOfModel else Ok [l_path v]
             | Err _ _ => Ok [l_path v]
             | Panic => Panic
             | OutOfModel => OutOfModel
